@@ -285,7 +285,7 @@ def fanout_names(machine):
 FANFAIL_KINDS = ("ExecutionStarted", "ExecutionSucceeded", "ExecutionFailed", "LambdaFunctionSucceeded")
 
 
-def oracle_order_ambiguous(m):
+def oracle_order_ambiguous(m, requests=None, timed=False):
     """A worker's plan answers the n-th request carrying a given payload; the engine counts requests in the order they
     arrive (time), the reference semantics in the order it evaluates branches (index).  When concurrent branches ask the
     same function the same question the two orders can differ — visible in the model's own prediction: its
@@ -300,10 +300,40 @@ def oracle_order_ambiguous(m):
             if k in last and t < last[k]:
                 return True
             last[k] = t
+    return requests is not None and replay_overrun(m, requests, timed)
+
+
+def replay_overrun(m, requests, timed):
+    """The oracle the model is given is the *recording* of what the workers answered in this engine run, per (function,
+    payload) in order of arrival.  When a fan-out attempt fails the engine cuts the siblings short while the reference
+    semantics runs every branch to its end: a sibling's further requests (a retried task, the next task of the branch) then
+    consume entries of the recording that the engine gave to *later* requests carrying the same payload (the next attempt of
+    a retried fan-out), and from there on the model is answered differently from the engine.  The replay is faithful exactly
+    when, per (function, payload), the engine's requests are the first ones of the model's in its own order: under the
+    canonical schedule the request instants must agree pairwise (the model may have more: those are past the end of the
+    recording and belong to branches that were cut short); under any other schedule instants say nothing, and only equal
+    numbers of requests per key are accepted.  `requests`: the simulator's `rpc_requests` of the run."""
+    from common import cj
+    if not m.get("fanFail"):
+        return False
+    eng, mod = {}, {}
+    for q in requests:
+        eng.setdefault(cj([q["queue"], q["payload"]]), []).append(round(float(q["t"]), 3))
+    for ev in m.get("history", []):
+        if ev[0] == "LambdaFunctionScheduled":
+            fn = str(ev[2].get("resource")).rsplit(":", 1)[-1]
+            mod.setdefault(cj([fn, ev[2].get("input")]), []).append(model_ms(ev[3]) if len(ev) > 3 else None)
+    for k in set(eng) | set(mod):
+        e, mo = eng.get(k, []), mod.get(k, [])
+        if timed:
+            if len(mo) > len(e) and mo[:len(e)] != e:
+                return True
+        elif len(mo) != len(e):
+            return True
     return False
 
 
-def compare_history(machine, m, history, n_requests, timed=False, request_instants=None):
+def compare_history(machine, m, history, n_requests, timed=False, request_instants=None, requests=None):
     """The engine's complete history against the `history` of `Asl.run` (`m`: the model's outcome).
     Returns (mode, problems, number of engine events compared):
       sequence  no Parallel / Map state was entered: the sequences of [type, name, detail] are equal;
@@ -323,7 +353,7 @@ def compare_history(machine, m, history, n_requests, timed=False, request_instan
     # two failed at the same instant: `tieFail`); under any other schedule which is handled first is the schedule's
     if m.get("status") not in ("SUCCEEDED", "FAILED") or m.get("tieFail" if timed else "multiFail"):
         return "skipped", [], 0
-    if oracle_order_ambiguous(m):
+    if oracle_order_ambiguous(m, requests, timed):
         return "skipped.oracle_order", [], 0
     mine = model_events(m, timed)
     theirs = history_events(history, timed)
@@ -361,13 +391,13 @@ def compare_history(machine, m, history, n_requests, timed=False, request_instan
     return mode, probs, len(theirs)
 
 
-def compare_notifications(m, details, data, timed=False):
+def compare_notifications(m, details, data, timed=False, requests=None):
     """The status notifications of the execution (the `detail` of each, in order of publication) against the model's
     `notifications`: the same statuses in the same order — RUNNING carrying the execution's input, then the terminal
     status carrying the output, or the error name with a cause exactly when the Error Output has one."""
     from common import cj
     if (m.get("status") not in ("SUCCEEDED", "FAILED") or m.get("tieFail" if timed else "multiFail")
-            or oracle_order_ambiguous(m)):
+            or oracle_order_ambiguous(m, requests, timed)):
         return "skipped", []
     want = m.get("notifications", [])
     probs = []
